@@ -48,6 +48,8 @@ type dagScenario struct {
 	mu               sync.Mutex
 	ranOnAfterCancel bool
 	buffered         bool
+	payload          string    // written between the markers of every attempt
+	writer           io.Writer // replaces the recording writer of buffered output
 
 	log       []dagEvent
 	inside    int
@@ -127,7 +129,7 @@ func (s *dagScenario) taskFn(i int) getoptions.CommandFn {
 		}
 		s.mu.Unlock()
 		if s.buffered {
-			fmt.Fprintf(Stdout(ctx), "<%d.%d>", i, k)
+			fmt.Fprintf(Stdout(ctx), "<%d.%d>%s", i, k, s.payload)
 		}
 		if s.cancelEarly && s.cancelBy == i && !s.cancelled {
 			s.mu.Lock()
@@ -138,7 +140,7 @@ func (s *dagScenario) taskFn(i int) getoptions.CommandFn {
 			if !vSymbolic() {
 				// natively: keep running long enough for the scheduler loop (1 ms tick)
 				// to go idle with the context cancelled
-				time.Sleep(30 * time.Millisecond)
+				time.Sleep(60 * time.Millisecond)
 				s.ranOnAfterCancel = true
 			}
 		}
@@ -148,9 +150,12 @@ func (s *dagScenario) taskFn(i int) getoptions.CommandFn {
 			s.cancelled = true
 			s.cancelAt = len(s.log)
 			vCancel(s.ctx)
-			if vGated() && s.inside > 1 {
-				// natively, under an enforced delivery order, the other running tasks
-				// stay inside for several scheduler ticks after this point
+			if !vSymbolic() {
+				// natively: stay in flight long enough for the scheduler loop (1 ms
+				// tick) to go idle with the context cancelled, whatever the load
+				s.mu.Unlock()
+				time.Sleep(60 * time.Millisecond)
+				s.mu.Lock()
 				s.ranOnAfterCancel = true
 			}
 		}
@@ -200,7 +205,11 @@ func (s *dagScenario) build() {
 		s.graph.SetMaxParallel(s.limit)
 	}
 	if s.buffered {
-		s.graph.SetOutputBuffer(vWriter("out"))
+		if s.writer != nil {
+			s.graph.SetOutputBuffer(s.writer)
+		} else {
+			s.graph.SetOutputBuffer(vWriter("out"))
+		}
 	}
 }
 
@@ -288,3 +297,27 @@ func (s *dagScenario) exitIndex(j int) int {
 	}
 	return r
 }
+
+// slowWriter passes everything on to a recording writer; every Write is a
+// scheduling point (natively it also takes a moment), so that whatever the
+// library does between two Write calls can be interleaved with other tasks.
+type slowWriter struct {
+	w io.Writer
+	n *int
+}
+
+func (y slowWriter) Write(p []byte) (int, error) {
+	*y.n++
+	vYieldAgain(100 + *y.n)
+	if !vSymbolic() {
+		time.Sleep(2 * time.Millisecond)
+	}
+	return y.w.Write(p)
+}
+
+// failingWriter refuses everything.
+type failingWriter struct{}
+
+var errWriterFailed = errors.New("writer failed")
+
+func (failingWriter) Write(p []byte) (int, error) { return 0, errWriterFailed }
